@@ -107,7 +107,7 @@ def cmd_run(name, tier="quick", pids=None):
                             "summary": out.strip().splitlines()[-1][:300] if out.strip() else "", "wall_s": round(time.time() - t, 1)}
             print("%s vs %s [%s]: exit=%d violations=%d %s" % (name, pid, tier, rc, len(viol), (cases[0][:160] if cases else "")))
     finally:
-        sh("git -C /repo checkout -- . && git -C /repo reset -q")
+        sh("git -C /repo reset -q HEAD; git -C /repo checkout -- .")
         sh("rm -rf /verif/cases")
     meta.setdefault("checks", {})
     for pid, r in results.items():
